@@ -702,4 +702,149 @@ def recursionRootWrites : List String :=
    "query.go:Select:selectQuery(ctx,scope,query,false)",
    "query.go:selectQuery:queryScope.recursionRoot=recursionRoot"]
 
+/-! comparison.go / eval.go: LIKE (reviewed on e406f76, after the repairs F111 = e581029 + e406f76).
+   Model/Like.lean was written against exactly these statements:
+   * Like: a NULL operand or an operand value.ToString turns into NULL is UNKNOWN; both texts through strings.ToUpper;
+     `str == pattern && !strings.Contains(pattern, "\\")` is TRUE at once (before e406f76: also with a backslash -
+     the text `a\%` matched the pattern `a\%`, which stands for `a%`); an empty pattern is FALSE; matchText on []rune of both;
+   * matchTextTail only keeps the (len text, len pattern) pairs that did not match - every call is made with tails of
+     the one text and the one pattern, so the pair identifies the arguments; the memo changes no answer;
+   * matchTextTailOnce: with a word, a text shorter than anyRunesMinLen fails, the word is searched with strings.Index
+     in text[anyRunesMinLen:] and idx counts runes from the start of the text (before e581029 the search began at the
+     start of the text and an earlier occurrence hid the one at the position the underscores fix: 'aa' LIKE '_a'); with
+     anyRunesMaxLen < 0 the same pattern is tried on text[idx+1-anyRunesMinLen:] first (before: text[idx+1:], the
+     dropped runes no longer counted: 'aa' LIKE '%_a'); then anyRunes = text[:idx] must number between min and max, an
+     empty rest wants the word at the end, otherwise matchTextTail goes on behind the word;
+   * matchCondition: wildcards before the word (`_`: min++ and max++ unless max is -1; `%`: max = -1), the word up to
+     the next unescaped wildcard, `\%` `\_` give the character, a backslash before anything else or at the end stays;
+   * evalLike evaluates both operands (no short-circuit), then Like, then ternary.Not for NOT LIKE. -/
+
+/-- `Like`: NULL operands, value.ToString, strings.ToUpper, the shortcut for equal texts, the empty pattern, matchText on the runes (p1 value.Primary,p2 value.Primary) -/
+def likeBody : List String :=
+  ["if(value.IsNull(p1)||value.IsNull(p2)){",
+   "returnternary.UNKNOWN",
+   "}",
+   "s1:=value.ToString(p1)",
+   "if(value.IsNull(s1)){",
+   "returnternary.UNKNOWN",
+   "}",
+   "str:=strings.ToUpper(s1.(*value.String).Raw())",
+   "value.Discard(s1)",
+   "s2:=value.ToString(p2)",
+   "if(value.IsNull(s2)){",
+   "returnternary.UNKNOWN",
+   "}",
+   "pattern:=strings.ToUpper(s2.(*value.String).Raw())",
+   "value.Discard(s2)",
+   "if(str==pattern&&!strings.Contains(pattern,\"\\\\\")){",
+   "returnternary.TRUE",
+   "}",
+   "if(len(pattern)<1){",
+   "returnternary.FALSE",
+   "}",
+   "returnmatchText([]rune(str),[]rune(pattern))"]
+
+/-- `matchText` (text []rune,pattern []rune) -/
+def matchTextBody : List String :=
+  ["returnmatchTextTail(text,pattern,make(map[[2]int]bool))"]
+
+/-- `matchTextTail`: the memo of failed (len text, len pattern) pairs around matchTextTailOnce (text []rune,pattern []rune,failed map[[2]int]bool) -/
+def matchTextTailBody : List String :=
+  ["key:=[2]int{len(text),len(pattern)}",
+   "if(failed[key]){",
+   "returnternary.FALSE",
+   "}",
+   "t:=matchTextTailOnce(text,pattern,failed)",
+   "if(t!=ternary.TRUE){",
+   "failed[key]=true",
+   "}",
+   "returnt"]
+
+/-- `matchTextTailOnce`: one segment - where the word is searched, the retry, the bounds, the end / the rest (text []rune,pattern []rune,failed map[[2]int]bool) -/
+def matchTextTailOnceBody : List String :=
+  ["anyRunesMinLen,anyRunesMaxLen,searchWord,restPattern:=matchCondition(pattern)",
+   "anyRunes:=text",
+   "if(0<len(searchWord)){",
+   "if(len(text)<anyRunesMinLen){",
+   "returnternary.FALSE",
+   "}",
+   "tailStr:=string(text[anyRunesMinLen:])",
+   "bidx:=strings.Index(tailStr,string(searchWord))",
+   "if(bidx<0){",
+   "returnternary.FALSE",
+   "}",
+   "idx:=anyRunesMinLen+utf8.RuneCountInString(tailStr[:bidx])",
+   "if(anyRunesMaxLen<0&&matchTextTail(text[idx+1-anyRunesMinLen:],pattern,failed)==ternary.TRUE){",
+   "returnternary.TRUE",
+   "}",
+   "anyRunes=text[:idx]",
+   "}",
+   "if(len(anyRunes)<anyRunesMinLen){",
+   "returnternary.FALSE",
+   "}",
+   "if(-1<anyRunesMaxLen&&anyRunesMaxLen<len(anyRunes)){",
+   "returnternary.FALSE",
+   "}",
+   "if(len(restPattern)<1){",
+   "returnternary.ConvertFromBool(len(anyRunes)+len(searchWord)==len(text))",
+   "}",
+   "returnmatchTextTail(text[len(anyRunes)+len(searchWord):],restPattern,failed)"]
+
+/-- `matchCondition`: the leading wildcards, the literal word with its escapes, the rest (pattern []rune) -/
+def matchConditionBody : List String :=
+  ["searchWord=make([]rune,0,len(pattern)+4)",
+   "patternPos:=0",
+   "escaped:=false",
+   "for(i:=0;i<len(pattern);i++){",
+   "r:=pattern[i]",
+   "if(escaped){",
+   "switch(r){",
+   "case('%','_'):",
+   "searchWord=append(searchWord,r)",
+   "default:",
+   "searchWord=append(searchWord,'\\\\',r)",
+   "}",
+   "patternPos++",
+   "escaped=false",
+   "continue",
+   "}",
+   "if((r=='%'||r=='_')&&0<len(searchWord)){",
+   "break",
+   "}",
+   "patternPos++",
+   "switch(r){",
+   "case('%'):",
+   "anyRunesMaxLen=-1",
+   "case('_'):",
+   "anyRunesMinLen++",
+   "if(-1<anyRunesMaxLen){",
+   "anyRunesMaxLen++",
+   "}",
+   "case('\\\\'):",
+   "escaped=true",
+   "default:",
+   "searchWord=append(searchWord,r)",
+   "}",
+   "}",
+   "if(escaped){",
+   "searchWord=append(searchWord,'\\\\')",
+   "}",
+   "returnanyRunesMinLen,anyRunesMaxLen,searchWord,pattern[patternPos:]"]
+
+/-- `evalLike`: both operands evaluated, Like, the negation for NOT LIKE -/
+def evalLikeBody : List String :=
+  ["lhs,err:=Evaluate(ctx,scope,expr.LHS)",
+   "if(err!=nil){",
+   "returnnil,err",
+   "}",
+   "pattern,err:=Evaluate(ctx,scope,expr.Pattern)",
+   "if(err!=nil){",
+   "returnnil,err",
+   "}",
+   "t:=Like(lhs,pattern)",
+   "if(expr.IsNegated()){",
+   "t=ternary.Not(t)",
+   "}",
+   "returnvalue.NewTernary(t),nil"]
+
 end Csvq.Ref
